@@ -39,6 +39,9 @@ def run(tier, scratch, drv, only_cases=None):
                     for m in MOMENTS:
                         cases.append({"n": len(cases) + 1, "cfg": {"transport": tr, "fault": f, "moment": m,
                                                                    "seed": vlib.seed() * 10 + rep}})
+        for st in ("finishing", "finished", "new", "negotiating", "authenticating"):
+            cases.append({"n": len(cases) + 1, "cfg": {"transport": "tcp", "fault": st, "moment": "handshake",
+                                                       "seed": vlib.seed()}})
     else:
         cases = only_cases
         res["model"] = {}
